@@ -47,6 +47,42 @@ fn judge(case: &EvalCase, actual: &Actual, model: &me::MRes) -> Verdict {
     }
 }
 
+fn many_call_cases() -> Vec<EvalCase> {
+    [3_000usize, 17_000, 70_000]
+        .iter()
+        .flat_map(|&n| {
+            [true, false].into_iter().map(move |cacheable| {
+                let mut fns = BTreeMap::new();
+                fns.insert("fa".to_string(), FnSpec { cacheable, fail_on: vec![me::arg_key(&Value::Int(n as i128 - 2))], fail_first: 0, uncacheable_after: 0 });
+                let calls = |from: usize| (from..n).map(|k| Expr::func("fa", Expr::value(k as i128))).collect::<Vec<_>>();
+                // (the failing argument sits last but one, in a conditional that is not taken the first time)
+                let mut items = calls(0);
+                let last = items.len() - 2;
+                items[last] = Expr::iif(Expr::value(false), items[last].clone(), Expr::value(0));
+                items.extend((0..n - 2).rev().step_by(7).map(|k| Expr::func("fa", Expr::value(k as i128))));
+                EvalCase { expr: Expr::Vec(items), facts: Value::None, fns, symbols: BTreeMap::new() }
+            })
+        })
+        .collect()
+}
+
+fn check_many(case: &EvalCase) -> Verdict {
+    let o = observe(case);
+    let short = EvalCase { expr: Expr::value("(a long list of calls)".to_string()), ..case.clone() };
+    judge(&short, &o.actual, &o.model)?;
+    match (&o.actual, &o.model) {
+        (Actual::Done(r), m) if compare(r, m).is_some() => Err(Issue::new(
+            "eval:many-calls:differs",
+            format!("an evaluation with {} calls of one function gives {} where the reference gives something else", o.model_log.len(), me::show_actual(r).chars().take(200).collect::<String>()),
+        )),
+        _ if o.log != o.model_log => Err(Issue::new(
+            "eval:many-calls:invocations",
+            format!("an evaluation with many calls of one function invoked it {} times, the reference {} times", o.log.len(), o.model_log.len()),
+        )),
+        _ => Ok(()),
+    }
+}
+
 pub fn default_tables(sel: u8) -> (BTreeMap<String, FnSpec>, BTreeMap<String, Value>) {
     if sel % 4 == 0 {
         return (BTreeMap::new(), BTreeMap::new());
@@ -221,6 +257,23 @@ pub fn run(ctx: &Ctx) {
         "chain",
     );
 
+    // (0b) one evaluation with very many calls: distinct arguments (however many results an evaluation has to keep),
+    // then every one of them once more
+    let many = many_call_cases();
+    ctx.enumerate(
+        "many-calls-in-one-evaluation",
+        many.len() as u64,
+        true,
+        |i, acc| {
+            let case = &many[i as usize];
+            acc.cell("many-calls", true);
+            acc.sample("many-calls", || format!("a list of {} calls of one function", match &case.expr { Expr::Vec(v) => v.len(), _ => 0 }));
+            check_many(case)
+        },
+        |i| serde_json::json!({"many_calls": i}),
+        "many-calls",
+    );
+
     // (1) depth-1 exhaustive over the boundary pool
     let cells = Cells::new(pool::boundary());
     ctx.extra("pool_size", serde_json::json!(cells.pool.len()));
@@ -326,6 +379,9 @@ pub fn replay(j: &serde_json::Value) -> Option<Verdict> {
     if let Some(b) = j.get("fuzz_bytes").and_then(|b| b.as_array()) {
         let bytes: Vec<u8> = b.iter().filter_map(|x| x.as_u64().map(|x| x as u8)).collect();
         return Some(check(&random_case(&bytes, 7)));
+    }
+    if let Some(i) = j.get("many_calls").and_then(|i| i.as_u64()) {
+        return many_call_cases().get(i as usize).map(check_many);
     }
     if let Some(a) = j.get("thread_exit").and_then(|a| a.as_array()) {
         return Some(check_evaluate_at_thread_exit(a.first()?.as_bool()?, a.get(1)?.as_bool()?));
